@@ -204,7 +204,7 @@ def asciiNoNul (s : Bytes) : Bool := s.all (fun b => b ≠ 0 && b < 128)
 
 def Block.wf : Block → Bool
   | .raw d => 0 < d.length && d.length < 2 ^ 31
-  | .deflated c d => 0 < d.length && d.length < 2 ^ 31 && c.length < 32000
+  | .deflated c d => 0 < d.length && d.length ≤ 2 ^ 20 && c.length < 32000   -- 1 MiB: the reader's limit (the game writes ≤ 16000)
 
 def Cmd.wf : Cmd → Bool
   | .fhdr2 name _ => name.length = 4 && asciiNoNul name
